@@ -9,7 +9,7 @@ for host, fmtname, flags in (("le", "SCPI_FORMAT_LITTLEENDIAN", []), ("be", "SCP
             JOBS.append(dict(name="arrp.produceResultArrayBinary.%s.s%d.%s" % (host, sz, part), props=["C17", "C06", "C01"], kind="P", harness="h_arrp.c", entry="h_produceResultArrayBinary",
                 enforce="produceResultArrayBinary", contracts=["array.h"], defines=["HOST_FORMAT=" + fmtname, "ARR_FIX=%d" % sz] + defs, loops=True, cc_flags=flags,
                 replace=["SCPI_ResultArbitraryBlock", "SCPI_ResultArbitraryBlockHeader", "SCPI_ResultArbitraryBlockData", "SCPI_ErrorPush"],
-                need_classes=["loop_invariant", "loop_decreases"], timeout=2400, cost=40, mem_gb=19, est_gb=5,
+                need_classes=["loop_invariant", "loop_decreases"], timeout=2400, cost=40, mem_gb=19, est_gb=4,
                 dead_loops=["produceResultArrayBinary:%d" % k for k, lsz in ((1, 2), (2, 4), (3, 8)) if lsz != sz],
                 bound="element count up to 10^8, block below 10^9 bytes (the header formatter's limit); error queue capacity symbolic",
                 what=("element size %d, %s host model, every count and both formats: " % (sz, host) if sz else "element sizes other than 1/2/4/8: -310, nothing written; ") +
